@@ -281,10 +281,13 @@ def core_check(prop, tier, seed, docs, owner_classes, module="TraceCore", max_ev
     return rc
 
 
-def family(seed, tier, shapes=True, nrand=0, small=0, small_sample=None, **kw):
+def family(seed, tier, shapes=True, nrand=0, small=0, small_sample=None, npar=None, **kw):
     docs = []
     if shapes:
         docs += docgen.shape_docs()
+    if npar is None:
+        npar = max(10, nrand // 3)
+    docs += docgen.par_docs(seed, npar, history=kw.get("history", True))
     if nrand:
         docs += docgen.rand_docs(seed, nrand, **kw)
     if small:
@@ -299,10 +302,10 @@ def no_history(docs):
 @check("C01")
 def c01(tier, seed):
     if tier == "quick":
-        docs = family(seed, tier, nrand=60, small=3, small_sample=4)
+        docs = family(seed, tier, nrand=60, small=3, small_sample=4) + docgen.history_docs() + docgen.final_docs()
         ev = 3
     else:
-        docs = family(seed, tier, nrand=600, small=4, small_sample=12)
+        docs = family(seed, tier, nrand=600, small=4, small_sample=12) + docgen.history_docs() + docgen.final_docs()
         ev = 4
     return core_check("C01", tier, seed, docs,
                       {"exit-inactive", "enter-active", "enter-history", "snapshot", "illegal", "final", "exit-snapshot"},
@@ -590,6 +593,227 @@ def c04(tier, seed):
     vlib.write_evidence("C04", tier, seed, "translation_validation", cov, time.time() - t0, len(V.violations),
                         ["the dump of the model through public fields (harness/src/dump.rs) and its canonicalisation "
                          "(tools/syntaxgen.py) are faithful", "documents are those the generator produces"])
+    return rc
+
+
+def run_simple_jobs(cmd, jobs, wd, name):
+    import subprocess
+    jf = os.path.join(wd, name + ".ndjson")
+    of = os.path.join(wd, name + ".out.ndjson")
+    with open(jf, "w") as f:
+        for j in jobs:
+            f.write(json.dumps(j) + "\n")
+    p = subprocess.run(["timeout", "1800", vlib.VH, cmd, jf, of], stdout=subprocess.PIPE, stderr=subprocess.STDOUT, text=True)
+    res = {}
+    if os.path.exists(of):
+        for line in open(of):
+            try:
+                r = json.loads(line)
+                res[r["id"]] = r
+            except Exception:
+                pass
+    return p.returncode, res, p.stdout[-500:]
+
+
+@check("C05")
+def c05(tier, seed):
+    t0 = time.time()
+    wd = vlib.workdir("C05")
+    V = vlib.Verdicts("C05")
+    vlib.build_harness()
+    # ---- (3) primitives: vectors from Rfsm.tla
+    mc = vlib.run_tlc("Rfsm", "RfsmVec.cfg", wd, timeout=600)
+    vecs = {}
+    for t in vlib.tlc_tuples(mc["text"], "VEC"):
+        v = vlib.parse_tla_value(t)
+        vecs[tuple(str(x) for x in v[1:])] = v
+    mc["text"] = ""
+    jobs = []
+    meta = {}
+    chars = {"ascii": "a", "latin": "\u00e9", "cjk": "\u65e5", "astral": "\U0001F600"}
+    for key, v in sorted(vecs.items()):
+        jid = len(jobs) + 1
+        if v[1] == "uint":
+            jobs.append({"id": jid, "kind": "uint", "hex": v[2]})
+            meta[jid] = ("uint", v[2], v[3])
+        else:
+            n, c = v[2], v[3]
+            jobs.append({"id": jid, "kind": "str", "text": chars[c] * n})
+            meta[jid] = ("str", "%d x %s" % (n, c), v[4], v[5])
+    rng = random.Random(seed)
+    for _ in range(200 if tier == "quick" else 20000):
+        jid = len(jobs) + 1
+        hx = "%x" % rng.getrandbits(rng.choice([8, 16, 31, 32, 48, 59, 60, 61, 63, 64]))
+        jobs.append({"id": jid, "kind": "uint", "hex": hx})
+        meta[jid] = ("uint", hx, None)
+    rc, res, tail = run_simple_jobs("prim", jobs, wd, "prim")
+    if rc != 0:
+        raise ToolError("vh prim failed: " + tail)
+    prim_ok = 0
+    wire_diff = 0
+    for jid, m in meta.items():
+        r = res.get(jid, {})
+        if m[0] == "uint":
+            bits = len(m[1]) * 4
+            if r.get("panic") or not r.get("same") or r.get("werr") or r.get("rerr"):
+                V.report("uint:%s" % ("ge-2^60" if int(m[1], 16) >= 1 << 60 else "lt-2^60"),
+                         "write_uint/read_uint round trip of 0x%s gives %s" % (m[1], r), {"value_hex": m[1], "result": r})
+            else:
+                prim_ok += 1
+                if m[2] is not None and r.get("bytes") != m[2]:
+                    wire_diff += 1
+        else:
+            representable = m[2]
+            if r.get("panic") or not r.get("same"):
+                V.report("string:%s" % ("ge-4096-bytes" if not representable else "lt-4096-bytes"),
+                         "write_str/read_string round trip of %s: %s" % (m[1], {k: r.get(k) for k in ("same", "backlen", "len", "panic", "werr", "rerr")}),
+                         {"string": m[1], "result": r})
+            else:
+                prim_ok += 1
+    # ---- (1) structure: parse -> dump  vs  parse -> write -> read -> dump
+    ndocs = 60 if tier == "quick" else 1500
+    djobs = []
+    dmeta = []
+    for di in range(ndocs):
+        root, ab = syntaxgen.gen_doc(seed * 100000 + di, size=6 + di % 12)
+        D = syntaxgen.abstract_to_D(ab, root)
+        text, _ = syntaxgen.serialize(root, "canon")
+        djobs.append({"id": 2 * di + 1, "xml": text})
+        djobs.append({"id": 2 * di + 2, "xml": text, "roundtrip": True})
+        dmeta.append((D, text))
+    results = run_dump_jobs(djobs, wd)
+    pairs = []
+    pidx = {}
+    for di, (D, text) in enumerate(dmeta):
+        a, b = results.get(2 * di + 1, {}), results.get(2 * di + 2, {})
+        if "model" not in a:
+            continue
+        if "model" not in b:
+            V.report("roundtrip-fails", "document %d: %s" % (di, str(b)[:300]), {"scxml": text, "result": b})
+            continue
+        pairs.append({"hasD": False, "D": EMPTY_D, "M": syntaxgen.model_to_M(a["model"]), "ref": 0})
+        pairs.append({"hasD": True, "D": D, "M": syntaxgen.model_to_M(b["model"]), "ref": len(pairs)})
+        pidx[len(pairs)] = di
+    tv, verdict = mirror_validate(pairs, wd)
+    struct_ok = 0
+    for idx, cls in verdict.items():
+        if idx not in pidx:
+            continue
+        if cls == "ok":
+            struct_ok += 1
+        else:
+            D, text = dmeta[pidx[idx]]
+            V.report("structure:%s" % cls, "document %d: reloaded model differs (%s)" % (pidx[idx], cls),
+                     {"scxml": text, "class": cls, "M_original": pairs[idx - 2]["M"], "M_reloaded": pairs[idx - 1]["M"]})
+    # ---- (2) behaviour: the reloaded machine produces the same (valid) traces
+    docs = no_history(family(seed, tier, nrand=30 if tier == "quick" else 400, history=False)) + docgen.history_docs() + docgen.final_docs()
+    mc2, stimuli = explore_docs(docs, wd, 3)
+    runs_a = run_sessions(docs, stimuli, wd)
+    runs_b = run_sessions(docs, stimuli, wd, extra={"roundtrip": True})
+    traces, anomalies = runs_to_traces(docs, runs_b)
+    tv2, verdict2 = validate_traces("TraceCore", traces, wd)
+    beh_ok = 0
+    for ra, rb in zip(runs_a, runs_b):
+        ti = rb.get("trace_index")
+        doc = docs[rb["d"] - 1]
+        if ti is None:
+            V.report("behaviour:reload-fails", "document %s could not be reloaded: %s" % (doc.name, str(rb["res"])[:200]),
+                     {"scxml": doc.xml(), "result": rb["res"]})
+            continue
+        cls, pos = verdict2[ti]
+        sa = [(s["k"], s["ev"], s["ts"], [(o["k"], o["s"], o["t"], o["v"]) for o in s["obs"]]) for s in tracelib.group(ra["res"]["sessions"][0]["recs"], doc, ra["res"]["tmap"])]
+        sb = [(s["k"], s["ev"], s["ts"], [(o["k"], o["s"], o["t"], o["v"]) for o in s["obs"]]) for s in rb["steps"]]
+        if cls != "ok" or sa != sb:
+            V.report("behaviour:%s" % (cls if cls != "ok" else "differs-from-original"),
+                     "document %s events %s: the reloaded machine behaves differently" % (doc.name, rb["events"]),
+                     replay_obj(docs, rb, cls, pos))
+        else:
+            beh_ok += 1
+    if prim_ok == 0 or struct_ok == 0 or beh_ok == 0:
+        raise ToolError("C05: nothing agreed (prim %d, struct %d, behaviour %d)" % (prim_ok, struct_ok, beh_ok))
+    rc = V.finish()
+    cov = {"programs": ndocs + len(docs), "disagreements_checked": len(V.violations) + sum(n for _, (k, n) in V.known_hits.items()),
+           "samples": [{"uint_hex": m[1], "image_hex": m[2]} for m in list(meta.values())[:3]] + [{"scxml": dmeta[0][1][:400]}],
+           "states": mc["distinct"] + tv["distinct"] + mc2["distinct"] + tv2["distinct"],
+           "transitions": mc["states"] + tv["states"] + mc2["states"] + tv2["states"],
+           "traces_validated_against_impl": beh_ok, "evaluations": len(jobs) + len(pairs) // 2 + len(runs_b),
+           "distinct_nontrivial": prim_ok + struct_ok + beh_ok,
+           "primitive_vectors": len(jobs), "primitive_ok": prim_ok, "wire_image_differs_from_spec": wire_diff,
+           "structure_pairs": len(pairs) // 2, "structure_ok": struct_ok, "behaviour_runs": len(runs_b), "behaviour_ok": beh_ok,
+           "rule": "(1) %d random documents: SameModel(dump(read(write(parse))), dump(parse)) and Mirrors(D, reloaded) by Mirror.tla; "
+                   "(2) every behaviour TLC finds for %d runnable documents is replayed on the reloaded machine, validated by "
+                   "TraceCore.tla and compared with the original machine's trace; (3) primitive vectors from Rfsm.tla (boundary and "
+                   "irregular nibble patterns for every width, string lengths x character classes) plus random 64-bit values "
+                   "through write/read" % (ndocs, len(docs))}
+    vlib.write_evidence("C05", tier, seed, "translation_validation", cov, time.time() - t0, len(V.violations),
+                        ["model dump and canonicalisation are faithful", "behavioural equivalence is judged on the generated documents and bounded event sequences"])
+    return rc
+
+
+@check("C18")
+def c18(tier, seed):
+    t0 = time.time()
+    wd = vlib.workdir("C18")
+    V = vlib.Verdicts("C18")
+    vlib.build_harness()
+    mc = vlib.run_tlc("Rfsm", "Rfsm.cfg", wd, timeout=900)
+    mc["text"] = ""
+    ndocs = 12 if tier == "quick" else 300
+    jobs = []
+    texts = {}
+    for di in range(ndocs):
+        root, ab = syntaxgen.gen_doc(seed * 100000 + 7000 + di, size=4 + di % 10)
+        text, _ = syntaxgen.serialize(root, "canon")
+        jobs.append({"id": di + 1, "xml": text, "max_writes": 400 if tier == "quick" else 3000})
+        texts[di + 1] = text
+    rc, res, tail = run_simple_jobs("cut", jobs, wd, "cut")
+    if rc != 0:
+        raise ToolError("vh cut failed: " + tail)
+    recs = []
+    rmeta = []
+    for jid, r in sorted(res.items()):
+        if "reads" not in r:
+            continue
+        L = r["len"]
+        for n, ch in enumerate(r["reads"]):
+            recs.append({"kind": "read", "len": L, "cut": n, "outcome": {"o": "ok", "e": "err", "p": "panic"}[ch],
+                         "mode": "", "same": True, "haserr": False, "panic": ch == "p"})
+            rmeta.append((jid, "read", n, L, None))
+        for w in r["writes"]:
+            k, mode, m, same, err = w
+            recs.append({"kind": "write", "len": L, "cut": 0, "outcome": "", "mode": "short" if mode == 1 else "fail",
+                         "same": same is True, "haserr": err is True, "panic": same == "panic"})
+            rmeta.append((jid, "write", k, mode, m))
+    if not recs:
+        raise ToolError("C18: no experiments")
+    with open(os.path.join(wd, "traces.ndjson"), "w") as f:
+        for r in recs:
+            f.write(json.dumps(r) + "\n")
+    tv = vlib.run_tlc("TraceC18", "TraceC18.cfg", wd, env={"TRACES": "traces.ndjson"}, timeout=1500)
+    bad = [vlib.parse_tla_value(t)[1] for t in vlib.tlc_tuples(tv["text"], "REJECT")]
+    tv["text"] = ""
+    for i in bad:
+        jid, kind, a, b, c = rmeta[i - 1]
+        r = recs[i - 1]
+        if kind == "read":
+            key = "read:%s-on-truncated-image" % r["outcome"] if r["cut"] < r["len"] else "read:complete-image-%s" % r["outcome"]
+            what = "image of %d bytes cut after %d bytes is read as %s" % (r["len"], r["cut"], r["outcome"])
+        else:
+            key = "write:%s" % ("short-write-corrupts-image" if r["mode"] == "short" else "failed-write-not-reported")
+            what = "write call %d (%s, accepts %s bytes): same image=%s, has_error=%s" % (a, r["mode"], c, r["same"], r["haserr"])
+        V.report(key, what, {"scxml": texts[jid], "experiment": r, "detail": res[jid].get("panics")})
+    ok = len(recs) - len(bad)
+    rc = V.finish()
+    cov = {"evaluations": len(recs), "distinct_nontrivial": sum(1 for r in recs if r["kind"] == "write" or r["cut"] < r["len"]),
+           "rule": "for each of %d images written from random documents: every prefix length is read (FsmReader::read under "
+                   "catch_unwind) and every write call is made short (1 byte / 0->1 byte accepted) or failing in turn; outcomes are "
+                   "accepted by TraceC18.tla (Rfsm.tla CutIsError; short writes must not change the image; failed writes must set "
+                   "the error state); non-trivial = experiments with an actual fault" % len(res),
+           "samples": [recs[0], recs[len(recs) // 2], recs[-1]],
+           "states": mc["distinct"] + tv["distinct"], "transitions": mc["states"] + tv["states"],
+           "images": len(res), "accepted": ok, "exhaustive": True}
+    vlib.write_evidence("C18", tier, seed, "fault_enumeration", cov, time.time() - t0, len(V.violations),
+                        ["faults are injected through the Read/Write objects handed to the protocol reader/writer"])
     return rc
 
 
